@@ -792,6 +792,7 @@ class TransactionBuilder:
         add_asset_name: AssetName,
         add_asset_val: int,
         max_val_size: int,
+        max_coin: int = 0,
     ) -> bool:
         """Check if adding the asset will make output exceed maximum size limit
 
@@ -818,7 +819,8 @@ class TransactionBuilder:
         required_lovelace = min_lovelace_post_alonzo(
             TransactionOutput(output.address, attempt_amount), self.context
         )
-        attempt_amount.coin = required_lovelace
+        # Size the value with the most ADA the output can receive, not only with its minimum ADA
+        attempt_amount.coin = max(required_lovelace, max_coin)
 
         return len(attempt_amount.to_cbor()) > max_val_size
 
@@ -847,6 +849,7 @@ class TransactionBuilder:
                     asset_name,
                     asset_value,
                     max_val_size,
+                    change_estimator.coin,
                 ):
                     # Insert current assets as one group if current assets isn't null
                     # This handles edge case when first Asset from next policy will cause overflow
@@ -878,7 +881,7 @@ class TransactionBuilder:
             required_lovelace = min_lovelace_post_alonzo(
                 TransactionOutput(change_address, updated_amount), self.context
             )
-            updated_amount.coin = required_lovelace
+            updated_amount.coin = max(required_lovelace, change_estimator.coin)
 
             if len(updated_amount.to_cbor()) > max_val_size:
                 # A single asset does not fit into a value of max_val_size bytes. Giving up here would
